@@ -285,6 +285,58 @@ def run(ctx: Context) -> None:
     # positive fixture for the zero-count rule: the scan must recognise a planted read
     fx = re.findall(r"\.([A-Za-z_]+)\b", "{{ invocation.result }}")
     ctx.add("R2", "selfcheck::template-scan-recognises-fixture", "result" in fx, "", "")
+    # R4: a GET handler that pops from the queue and routes back (itself a reported mutation) must at least
+    # compensate one to one - a weaker compensation loses messages instead of only reordering them
+    ctx.rule("R4", "pop / re-route compensation inside a handler is one to one: every popped id is appended unconditionally to a list and exactly that list is iterated to route every element back")
+    n4 = 0
+    for f, m, p in rts:
+        pops = [c for c in calls_in(f.node) if call_name(c) == "retrieve_invocation"]
+        pushes = [c for c in calls_in(f.node) if call_name(c) in ("route_invocation", "route_invocations")]
+        if not pops or not pushes:
+            continue
+        n4 += 1
+        pm_ = {id(ch): par for par in ast.walk(f.node) for ch in ast.iter_child_nodes(par)}
+
+        def ancestors(n):
+            cur = pm_.get(id(n))
+            while cur is not None and cur is not f.node:
+                yield cur
+                cur = pm_.get(id(cur))
+
+        problems: list[str] = []
+        collected: set[str] = set()
+        for c in pops:
+            # the popped id: walrus target or assignment target
+            par = pm_.get(id(c))
+            idname = par.target.id if isinstance(par, ast.NamedExpr) and isinstance(par.target, ast.Name) else (par.targets[0].id if isinstance(par, ast.Assign) and isinstance(par.targets[0], ast.Name) else None)
+            if idname is None:
+                problems.append("the popped id is not bound to a name")
+                continue
+            apps = [a for a in calls_in(f.node) if call_name(a) == "append" and isinstance(a.func, ast.Attribute) and isinstance(a.func.value, ast.Name) and a.args and idname in {x.id for x in ast.walk(a.args[0]) if isinstance(x, ast.Name)}]
+            if not apps:
+                problems.append(f"the popped id `{idname}` is not appended to a list (a dict / set forgets duplicate messages)")
+                continue
+            for a in apps:
+                conds = [x for x in ancestors(a) if isinstance(x, ast.If)]
+                extra = [x for x in conds if not (any(y is c for y in ast.walk(x.test)) or (isinstance(x.test, ast.Name) and x.test.id == idname))]
+                if extra:
+                    problems.append(f"the popped id is kept only under `{ast.unparse(extra[0].test)[:50]}`")
+                collected.add(a.func.value.id)
+        for c in pushes:
+            loops = [x for x in ancestors(c) if isinstance(x, (ast.For, ast.AsyncFor))]
+            if call_name(c) == "route_invocations":
+                src = c.args[0] if c.args else None
+                if not (isinstance(src, ast.Name) and src.id in collected) and not (isinstance(src, (ast.ListComp, ast.GeneratorExp)) and isinstance(src.generators[0].iter, ast.Name) and src.generators[0].iter.id in collected and not src.generators[0].ifs):
+                    problems.append("the batch routed back is not the list of popped messages")
+                continue
+            if not loops or not (isinstance(loops[0].iter, ast.Name) and loops[0].iter.id in collected):
+                problems.append(f"the re-route loop does not iterate the list of popped messages ({ast.unparse(loops[0].iter)[:40] if loops else 'no loop'})")
+                continue
+            conds = [x for x in ancestors(c) if isinstance(x, ast.If) and any(x is y for y in ast.walk(loops[0]))]
+            if conds:
+                problems.append(f"re-routing is conditional on `{ast.unparse(conds[0].test)[:50]}`")
+        ctx.add("R4", f"{f.qualname}::requeues-every-popped-message", not problems, f.loc(), "" if not problems else f"{p}: " + "; ".join(problems) + ": messages popped by the page are not all routed back - the page deletes queue entries")
+    ctx.floor("R4", "handlers that pop and re-route", n4, 1)
     # side-effect property reads in handler code (typed through the call graph: property edges)
     ctx.exhaustive = True
     ctx.not_decided += ["dynamic dispatch through Jinja filters/macros beyond textual attribute chains"]
